@@ -24,13 +24,16 @@ def geneOfJson (j : Json) : R GeneJ := do
   let hits ← listOf (fun h => do return ((← asStr (← idx h 0)), (← asInt (← idx h 1)))) (← fld j "hits")
   return ⟨← natF j "n", ← locOfJson (← fld j "loc"), hits, ← boolF j "hasres"⟩
 
-def envOf (gs : List GeneJ) (cutoff circ : Int) : Env where
-  genes := gs.map (·.n)
-  withHits := (gs.filter (·.hasRes)).map (·.n)
-  hits := fun g => match gs.find? (·.n == g) with | some x => x.hits | none => []
-  loc := fun g => match gs.find? (·.n == g) with | some x => x.loc | none => default
-  cutoff := cutoff
-  circ := circ
+def envOf (spec : Bool) (gs : List GeneJ) (cutoff circ : Int) : Env :=
+  let genes := gs.map (·.n)
+  let withHits := (gs.filter (·.hasRes)).map (·.n)
+  let hits := fun g => match gs.find? (·.n == g) with | some x => x.hits | none => []
+  let loc := fun g => match gs.find? (·.n == g) with | some x => x.loc | none => default
+  if spec then Env.ofLocsSpec genes withHits hits loc cutoff circ
+  else Env.ofLocs genes withHits hits loc cutoff circ
+
+def locOK (L : Int) (l : Loc) : Bool :=
+  !l.parts.isEmpty && l.parts.all fun p => decide (0 ≤ p.lo) && decide (p.lo < p.hi) && (L == 0 || decide (p.hi ≤ L))
 
 def ancToJson (l : List (Gene × Prof)) : Json :=
   jArr ((sortDedup (fun a b => a.1 < b.1 || (a.1 == b.1 && a.2 < b.2)) l).map
@@ -38,22 +41,24 @@ def ancToJson (l : List (Gene × Prof)) : Json :=
 
 def handle (j : Json) : R Json := do
   let gs ← listOf geneOfJson (← fld j "genes")
-  let e := envOf gs (← intF j "cutoff") (← intF j "circ")
+  let circ ← intF j "circ"
+  let e := envOf false gs (← intF j "cutoff") circ
+  let es := envOf true gs (← intF j "cutoff") circ
   let g ← natF j "g"
   let c ← condOfJson (← fld j "cond")
   let m := detect e g c
   let implAnc ← listOf (fun h => do return ((← asNat (← idx h 0)), (← asStr (← idx h 1)))) (fldD j "impl_anc" (jArr []))
-  let ancSound := implAnc.all fun x => (e.near g).contains x.1 && e.has x.1 x.2 && c.profiles.contains x.2
+  let ancSound := implAnc.all fun x => (es.near g).contains x.1 && es.has x.1 x.2 && c.profiles.contains x.2
   return jObj [
     ("model", jObj [("met", toJson m.met),
                     ("reasons", jStrs (sortDedup (· < ·) m.reasons)),
                     ("anc", ancToJson m.ancillary),
                     ("anchors", toJson (anchors e g c))]),
-    ("spec", jObj [("sem", toJson (sem e g c)),
-                   ("reasons", jStrs (sortDedup (· < ·) (specReasons e g c))),
-                   ("anchors", toJson (specAnchors e g c)),
+    ("spec", jObj [("sem", toJson (sem es g c)),
+                   ("reasons", jStrs (sortDedup (· < ·) (specReasons es g c))),
+                   ("anchors", toJson (specAnchors es g c)),
                    ("anc_sound", toJson ancSound)]),
-    ("near", toJson (e.near g).length),
-    ("scope", toJson (c.WF && e.wfb))]
+    ("near", toJson (es.near g).length),
+    ("scope", toJson (c.WF && e.wfb && gs.all fun x => locOK circ x.loc))]
 
 end ASV.Drv.C01
